@@ -31,10 +31,15 @@ func (pullLoader) CaddyModule() caddy.ModuleInfo {
 	return caddy.ModuleInfo{ID: "caddy.config_loaders.c12pull", New: func() caddy.Module { return new(pullLoader) }}
 }
 
-func (pullLoader) LoadConfig(caddy.Context) ([]byte, error) {
+// pullCtx: the context the loader was called with - that of the config naming the loader, which is
+// the running config from the moment run() returns until the pulled config replaces it.
+var pullCtx any
+
+func (pullLoader) LoadConfig(ctx caddy.Context) ([]byte, error) {
 	pullMu.Lock()
 	defer pullMu.Unlock()
 	pullCalls++
+	pullCtx = ctx.Context
 	return append([]byte(nil), pullBytes...), nil
 }
 
@@ -75,7 +80,7 @@ func runPull(line, appsS, pulledS string) core.Outcome {
 	}
 	reset()
 	pullMu.Lock()
-	pullBytes, pullCalls = pulled, 0
+	pullBytes, pullCalls, pullCtx = pulled, 0, nil
 	pullMu.Unlock()
 	o := core.Outcome{Tags: []string{"pull"}}
 	init := map[string]any{
@@ -96,8 +101,15 @@ func runPull(line, appsS, pulledS string) core.Outcome {
 		}
 		time.Sleep(2 * time.Millisecond)
 	}
-	mid := caddy.ActiveContext().Context
+	var mid any = caddy.ActiveContext().Context
 	waitPullDone()
+	pullMu.Lock()
+	if pullCalls > 0 && pullCtx != nil {
+		// sampled by the loader itself: under load the pulled config may already have been applied
+		// when ActiveContext() was read above (which made an applied config look "not started")
+		mid = pullCtx
+	}
+	pullMu.Unlock()
 	end, fails := observe()
 	o.Failures = append(o.Failures, fails...)
 	loads := 0
